@@ -7,12 +7,18 @@ from lib.tlaval import to_tla
 
 LEVEL = 'model_checking'
 EPS = 1e-6
-ALL_ACTS = ['modereq', 'addplayer', 'score', 'var', 'pvar', 'eb', 'lb', 'shot', 'ach', 'mode', 'timer', 'endgame', 'tv', 'hold', 'late']
+ALL_ACTS = ['modereq', 'addplayer', 'score', 'var', 'pvar', 'eb', 'lb', 'shot', 'ach', 'mode', 'timer', 'endgame', 'tv', 'hold', 'late',
+            'read']
 INTVARS = ['score', 'bonus', 'ball', 'extra_balls', 'shot_sh1', 'shot_sh2', 'shot_sh3', 'shot_sh1_enabled',
            'shot_sh2_enabled', 'gm2_t2_tick']
 TVARS = ['ini', 'sel']         # player variables holding strings / None / ints (Players!TVars)
 KNOWN_VARS = set(INTVARS) | set(TVARS) | {'index', 'number', 'restart_modes_on_next_ball', 'c1_state', 'a1_state', 'q1_state', 'c2_state',
                              'achievements'}
+# variables that schedules READ (Players!RVars) and the ones among them whose player_<var> event nobody listens to yet
+RVARS = INTVARS + TVARS + ['c1_state', 'a1_state', 'q1_state', 'c2_state', 'achievements', 'restart_modes_on_next_ball',
+                           'shot_sh3_enabled', 'foo']
+XVARS = [n for n in RVARS if n not in INTVARS and n not in TVARS]
+RPATHS = ['cond', 'attr', 'tmpl', 'item', 'condcur', 'sub', 'tmplcur', 'tsub']
 CONFIGS = [dict(bpg=2, maxp=3), dict(bpg=3, maxp=2), dict(bpg=2, maxp=1)]
 # code-as-is deviations from the statement that the Trace spec can name (PlayersTrace!DevLate)
 DEVIATIONS = ['LateModeStart']
@@ -22,7 +28,7 @@ DEV_WHAT = {'LateModeStart': 'a game mode that is started while the ended ball s
                              'the NEXT player\'s turn change the previous player\'s persisted state (mode.py start() only asks for '
                              'game and player; mode_controller._ball_ending stops the modes active at that moment only; '
                              '_player_turn_ended stops nothing)'}
-MONITORS = ['FrameOK', 'FreshOK', 'RestoreOK', 'VarEventOK', 'TurnOK', 'LiveOK', 'OwnOK']
+MONITORS = ['FrameOK', 'FreshOK', 'RestoreOK', 'VarEventOK', 'TurnOK', 'LiveOK', 'OwnOK', 'VarSetOK', 'ReadOK']
 
 
 # ---- machine under test ------------------------------------------------------------------------------------------
@@ -65,7 +71,11 @@ shot_profiles:
       - name: unlit
       - name: lit
       - name: done
-""" % (bpg, maxp))
+event_player:
+%s
+""" % (bpg, maxp, '\n'.join(
+            ['  rd_%d_%s{players[%d].%s}: rdres' % (q, v, q - 1, v) for q in (1, 2, 3) for v in RVARS] +
+            ['  rdc_%s{current_player.%s}: rdres' % (v, v) for v in RVARS])))
     with open(d + '/modes/gm1/config/gm1.yaml', 'w') as f:
         f.write("""#config_version=6
 mode:
@@ -214,11 +224,20 @@ GenShape == /\ (ph = "ball" /\ P[cur].ball = 1 /\ np < cfg.maxp /\ bops = 0 /\ n
 \* start requests while an ended ball waits: now and then, as the code answers them (granted)
             /\ (act'.op = "latereq") => (act'.run /\ act'.m = "gm1" /\ bops = 0 /\ nops %% 5 = 0)
             /\ (ph = "ending" /\ bops = 0 /\ nops %% 5 = 0 /\ "late" \in Acts /\ nops < MaxOps) => act'.op = "latereq"
+\* reads: one variable and one path per position of the schedule (every player), so that reads do not crowd out the rest
+            /\ (act'.op = "read") => /\ act'.var = RVarSeq[((nops + 2 * bops + cur) %% Len(RVarSeq)) + 1]
+                                     /\ act'.path = RPathSeq[((nops + (nops \div 8) + 3 * bops) %% Len(RPathSeq)) + 1]
 =============================================================================
 """ % ', '.join(to_tla(c) for c in configs)
 
 
-def cfg_text(spec, configs_def, acts, maxops, maxadv, maxgames, maxeb, props, ballops=1000000, maxreq=2, dev=()):
+# exhaustive runs: a read is the same step of the model whatever is read and however: representatives (a persisted enable
+# flag, a logic block state, a name nobody writes; Player API, condition, current_player template)
+MC_READS = (['shot_sh1_enabled', 'c2_state', 'foo'], ['attr', 'cond', 'tmplcur'])
+
+
+def cfg_text(spec, configs_def, acts, maxops, maxadv, maxgames, maxeb, props, ballops=1000000, maxreq=2, dev=(), reads=None):
+    rvars, rpaths = reads or (sorted(set(RVARS)), RPATHS)
     return """SPECIFICATION %s
 CONSTANTS
   Configs <- %s
@@ -231,13 +250,15 @@ CONSTANTS
   MaxBallOps = %d
   MaxReq = %d
   Deviations = {%s}
+  ReadVars = {%s}
+  ReadPaths = {%s}
 %sCHECK_DEADLOCK FALSE
 """ % (spec, configs_def, ', '.join('"%s"' % a for a in acts), maxops, maxadv, maxgames, maxeb, ballops, maxreq,
-       ', '.join('"%s"' % d for d in dev), props)
+       ', '.join('"%s"' % d for d in dev), ', '.join('"%s"' % x for x in rvars), ', '.join('"%s"' % x for x in rpaths), props)
 
 
 PROPS = ('INVARIANT TypeOK\nINVARIANT Attached\nINVARIANT NothingSurvives\nPROPERTY Frame\nPROPERTY Restore\n'
-         'PROPERTY FreshGame\nPROPERTY VarEvent\n')
+         'PROPERTY FreshGame\nPROPERTY VarEvent\nPROPERTY ReadPure\n')
 # exhaustive runs, partitioned by action family: (label, configs, acts, MaxOps quick/thorough, MaxAdv, MaxGames, MaxEB)
 MC_RUNS = [
     ('skeleton+score+counter', [dict(bpg=2, maxp=3)], ['modereq', 'addplayer', 'score', 'lb', 'eb', 'endgame'], (4, 6), 0, 1, 1),
@@ -247,15 +268,18 @@ MC_RUNS = [
     ('held-stop', [dict(bpg=2, maxp=2)], ['addplayer', 'mode', 'hold', 'late', 'lb', 'eb', 'endgame'], (4, 6), 0, 1, 1),
     ('typed-vars', [dict(bpg=2, maxp=2)], ['addplayer', 'tv', 'endgame'], (3, 4), 0, 1, 0),
     ('targeted-vars', [dict(bpg=2, maxp=3), dict(bpg=2, maxp=1)], ['addplayer', 'pvar', 'var', 'score'], (4, 5), 0, 1, 0),
+    ('reads', [dict(bpg=2, maxp=2)], ['addplayer', 'read', 'shot', 'mode'], (3, 4), 0, 1, 0),
 ]
 
 # schedule generation profiles: (action families, ops per ball, share of the schedules)
 GEN_PROFILES = [
-    ([a for a in ALL_ACTS if a not in ('tv', 'late')], 6, 0.27),
+    ([a for a in ALL_ACTS if a not in ('tv', 'late', 'read')], 6, 0.27),
     (['modereq', 'addplayer', 'lb', 'mode', 'score', 'eb', 'hold', 'late'], 5, 0.23),
     (['modereq', 'addplayer', 'shot', 'ach', 'var', 'pvar', 'endgame', 'eb'], 5, 0.18),
     (['modereq', 'addplayer', 'mode', 'timer', 'hold'], 6, 0.22),
     (['addplayer', 'tv', 'var', 'pvar', 'endgame', 'eb'], 5, 0.10),
+    # reads of player variables (own, other players', players who have not joined) between everything the devices persist
+    (['modereq', 'addplayer', 'read', 'shot', 'lb', 'mode', 'timer', 'eb', 'tv', 'endgame'], 6, 0.15),
 ]
 
 # ---- execution on real mpf -------------------------------------------------------------------------------------------
@@ -265,6 +289,8 @@ _W = {}
 def _lbp(x):
     if x is None:
         return {'x': False, 'v': 0, 'en': False, 'done': False}
+    if not hasattr(x, 'completed'):     # the variable exists and is not a logic block state
+        return {'x': True, 'v': -99, 'en': False, 'done': False}
     v = x.value
     if isinstance(v, (list, tuple)):
         v = sum((1 << i) for i, b in enumerate(v) if b)
@@ -340,6 +366,12 @@ class GameRun:
         self.arm = False        # hold the next mode_gm2_stopping
         self.ev = []
         self.fb = False
+        self.xevlog = []
+        self.rdres = []
+        self.rd = {}
+        for n in XVARS:
+            self.m.events.add_handler('player_' + n, self._mkx(n), priority=1)
+        self.m.events.add_handler('rdres', self._rdres, priority=1)
         for n in INTVARS:
             self.m.events.add_handler('player_' + n, self._mk(n), priority=1)
         for n in TVARS:
@@ -364,6 +396,45 @@ class GameRun:
                                 pn if isinstance(pn, int) else -9999])
         return hnd
 
+    def _mkx(self, n):
+        def hnd(**kwargs):
+            self.xevlog.append(n)
+        return hnd
+
+    def _rdres(self, **kwargs):
+        self.rdres.append(1)
+
+    def read(self, a):
+        """Read variable a['var'] of player a['q'] through a['path']; returns the observation of the read line."""
+        m, g = self.m, self.m.game
+        q, var, path = a['q'], a['var'], a['path']
+        val, seen = None, True
+        if path in ('attr', 'item'):
+            pl = g.player_list[q - 1]
+            if g.player is not None and g.player.number == q and self.rnd.random() < 0.5:
+                pl = g.player
+            val = getattr(pl, var) if path == 'attr' else pl[var]
+        elif path in ('cond', 'condcur'):
+            del self.rdres[:]
+            m.events.post('rd_%d_%s' % (q, var) if path == 'cond' else 'rdc_' + var)
+            self.settle()
+            seen, val = False, bool(self.rdres)
+        else:
+            text = {'tmpl': 'players[%d].%s', 'sub': "players[%d]['%s']", 'tsub': 'players[%d].%s'}.get(path)
+            text = text % (q - 1, var) if text else 'current_player.' + var
+            tmpl = m.placeholder_manager.build_raw_template(text)
+            if path == 'tsub':
+                val, fut = tmpl.evaluate_and_subscribe({})
+                fut.cancel()
+            else:
+                val = tmpl.evaluate({})
+        if isinstance(val, bool) and seen:
+            val = int(val)
+        simple = val is None or isinstance(val, (int, str))
+        joined = q <= len(g.player_list)
+        return {'rv': '-' if not seen else enc(val) if simple else '?', 'rt': bool(val),
+                'has': bool(joined and g.player_list[q - 1].is_player_var(var))}
+
     def _hold_stop(self, queue, **kwargs):
         """E.g. a show or slide that is played out before the mode is torn down."""
         if self.arm:
@@ -386,7 +457,12 @@ class GameRun:
             rec['run'] = bool(self.m.modes[a['m']].active)
         if a['op'] == 'pvar':           # an entry for a player who has not joined: dropped or applied to the player who is up
             rec['fb'] = self.fb
+        if a['op'] == 'read':
+            rec.update(self.rd)
         rec['pl'] = [project_player(p, i) for i, p in enumerate(g.player_list)] if g else []
+        rec['vs'] = [sorted(p.vars) for p in g.player_list] if g else []
+        rec['xevs'] = self.xevlog[:]
+        del self.xevlog[:]
         rec['live'] = project_live(self.m)
         rec['evs'] = self.evlog[:]
         del self.evlog[:]
@@ -458,6 +534,8 @@ class GameRun:
                 setattr(pl, a['var'], dec(a['val']))
         elif op == 'timer':
             m.events.post('t2_' + a['kind'])
+        elif op == 'read':
+            self.rd = self.read(a)
         elif op == 'adv':
             h.advance_time_and_run(1 + EPS)
         elif op == 'ballend':
@@ -488,12 +566,16 @@ class GameRun:
 
 def exec_schedule(job):
     root, cfg, sched, seed = job
+    gr = None
     try:
         mdir = write_machine(root, cfg['bpg'], cfg['maxp'])
-        return {'cfg': cfg, 'ev': GameRun(mdir, sched, seed).run()}
+        gr = GameRun(mdir, sched, seed)
+        return {'cfg': cfg, 'ev': gr.run()}
     except BaseException as ex:  # pylint: disable=broad-except
         import traceback
-        return {'cfg': cfg, 'ev': [{'op': 'crash', 'what': repr(ex)[:300]}], '_tb': traceback.format_exc()[-2000:]}
+        # what was observed before the crash stays in the trace: the model judges it up to the line that crashed
+        return {'cfg': cfg, 'ev': (gr.ev if gr else []) + [{'op': 'crash', 'what': repr(ex)[:300]}],
+                '_tb': traceback.format_exc()[-2000:]}
 
 
 # ---- hand-written schedules -------------------------------------------------------------------------------------------
@@ -555,6 +637,33 @@ def handmade():
                    [A('var', kind='add'), BE, TS] + allpv + [A('score'), pv('add', 2), BE, TS, pv('add', 2), pv('set', 2), A('var', kind='set'),
                     pv('add', 1), BE, TS, pv('add', 1), pv('set', 1), pv('add', 2), BE, TS] + allpv + [BE]))
     out.append((2, [NG, TS, pv('add', 1), pv('add', 2), pv('set', 2), AP, pv('set', 1), BE, TS, pv('add', 2), pv('add', 1), BE]))
+    # reads of variables that do not exist yet - above all the persisted state of the mode devices before the device was
+    # loaded for that player for the first time (player up before his first ball, players waiting for their first turn,
+    # gm2's devices before gm2 ever ran) - through every path; then everybody's first (and second) ball
+    R = lambda q, var, path: A('read', q=q, var=var, path=path)
+    sh = lambda i, kind='hit': A('shot', i=i, kind=kind)
+    out.append((0, [NG, R(1, 'shot_sh1_enabled', 'tmplcur'), R(1, 'c1_state', 'item'), R(1, 'foo', 'condcur'), R(2, 'score', 'tmpl'), TS,
+                    R(1, 'c2_state', 'attr'), R(1, 'gm2_t2_tick', 'condcur'), R(1, 'shot_sh3', 'sub'), AP, AP,
+                    R(2, 'shot_sh1_enabled', 'cond'), R(3, 'shot_sh1_enabled', 'attr'), R(2, 'shot_sh2_enabled', 'tmpl'),
+                    R(3, 'shot_sh2_enabled', 'item'), R(2, 'c1_state', 'sub'), R(3, 'c1_state', 'cond'), R(2, 'a1_state', 'tsub'),
+                    R(3, 'q1_state', 'attr'), R(2, 'achievements', 'item'), R(3, 'extra_balls', 'tmpl'), R(2, 'shot_sh1', 'attr'),
+                    R(3, 'shot_sh2', 'cond'), R(2, 'foo', 'attr'), R(3, 'sel', 'tmpl'), R(2, 'ball', 'item'), R(1, 'shot_sh1_enabled', 'tmplcur'),
+                    sh(1), hit('c1'), MS, hit('c2'), R(2, 'c2_state', 'cond'), R(3, 'c2_state', 'item'), R(2, 'gm2_t2_tick', 'tsub'),
+                    R(3, 'gm2_t2_tick', 'attr'), R(1, 'c2_state', 'tmplcur'), BE, R(2, 'shot_sh1_enabled', 'condcur'), R(1, 'shot_sh1', 'tmpl'),
+                    R(3, 'a1_state', 'item'), TS, R(2, 'shot_sh1_enabled', 'tmplcur'), sh(1), sh(2), sh(2, 'enable'), sh(2), hit('c1'),
+                    hit('a1', 0), R(1, 'shot_sh1', 'cond'), R(3, 'shot_sh2_enabled', 'cond'), R(2, 'c2_state', 'condcur'), BE, TS, sh(1), sh(2),
+                    hit('c1'), hit('c1'), R(1, 'c1_state', 'attr'), R(2, 'shot_sh2_enabled', 'item'), R(3, 'c2_state', 'tmplcur'), MS,
+                    hit('c2'), BE, TS, sh(1), hit('c1'), hit('c2'), BE, TS, sh(1), sh(2), MS, hit('c2'), R(3, 'gm2_t2_tick', 'cond'), BE, TS,
+                    sh(1), hit('c2'), BE]))
+    out.append((1, [NG, TS, R(2, 'shot_sh1_enabled', 'cond'), R(2, 'c1_state', 'tmpl'), R(3, 'foo', 'sub'), AP, R(2, 'shot_sh1_enabled', 'item'),
+                    R(2, 'shot_sh2_enabled', 'attr'), R(2, 'q1_state', 'cond'), R(2, 'c2_state', 'tsub'), R(2, 'gm2_t2_tick', 'sub'),
+                    R(2, 'ini', 'attr'), R(2, 'sel', 'cond'), R(2, 'bonus', 'tmpl'), R(3, 'score', 'cond'), sh(1), A('score'), BE,
+                    R(2, 'achievements', 'condcur'), R(2, 'restart_modes_on_next_ball', 'tmplcur'), TS, sh(1), sh(1), R(1, 'shot_sh1', 'attr'),
+                    R(1, 'score', 'cond'), R(2, 'score', 'condcur'), MS, A('timer', kind='start'), A('adv'), R(1, 'gm2_t2_tick', 'tmpl'),
+                    R(2, 'gm2_t2_tick', 'tmplcur'), BE, TS, sh(1), BE, TS, sh(1), R(1, 'shot_sh1', 'tsub'), BE, TS, BE, TS, BE]))
+    out.append((2, [NG, R(1, 'shot_sh1_enabled', 'attr'), R(2, 'shot_sh1_enabled', 'tmpl'), R(3, 'c1_state', 'cond'), TS, AP,
+                    R(2, 'shot_sh1_enabled', 'sub'), R(1, 'c2_state', 'item'), sh(1), BE, TS, R(1, 'c2_state', 'condcur'), MS, hit('c2'), sh(1),
+                    R(1, 'shot_sh3_enabled', 'attr'), BE, NG, R(1, 'shot_sh1_enabled', 'condcur'), R(1, 'c2_state', 'tmplcur'), TS, sh(1), BE]))
     return out
 
 
@@ -596,7 +705,7 @@ def run(ctx):
             f.write(mc_module(cfgs))
         with open(wd + '/MC.cfg', 'w') as f:
             f.write(cfg_text('Spec', 'MCConfigs', acts, maxops[q], maxadv[q] if isinstance(maxadv, tuple) else maxadv,
-                             maxgames, maxeb, PROPS))
+                             maxgames, maxeb, PROPS, reads=MC_READS))
         r = tlc.expect_ok(tlc.check(wd, 'PlayersMC', 'MC.cfg', workers=6, timeout=1500), 'Players design check (%s)' % label)
         ctx.add_tlc('PlayersMC ' + label, r, {'configs': cfgs, 'Acts': acts, 'MaxOps': maxops[q], 'MaxAdv': maxadv, 'MaxGames': maxgames})
     ctx.coverage['monitors'] += ['Frame', 'Restore', 'FreshGame', 'NothingSurvives', 'VarEvent', 'Attached'] + MONITORS
@@ -663,6 +772,22 @@ def run(ctx):
         'other player (not up)': sum(1 for e, c in pv if e['n'] != c and e['n'] <= len(e['pl'])),
         'target has not joined': sum(1 for e, c in pv if e['n'] > len(e['pl'])),
         'events seen': sum(len(e.get('evs', [])) for e, c in pv)}
+    rd = [(e, t['ev'][k - 1]) for t in traces for k, e in enumerate(t['ev']) if k and e['op'] == 'read' and 'has' in e]
+    ctx.coverage['reads_of_player_variables'] = {
+        'total': len(rd), 'by path': {p: sum(1 for e, _ in rd if e['path'] == p) for p in RPATHS},
+        'variable does not exist': sum(1 for e, _ in rd if not e['has']),
+        'of another player': sum(1 for e, _ in rd if e['q'] != e.get('cur') and e['q'] <= len(e['pl'])),
+        'of a player who has not joined': sum(1 for e, _ in rd if e['q'] > len(e['pl'])),
+        'persisted device state before the first load for that player': sum(
+            1 for e, _ in rd if not e['has'] and (e['var'].endswith('_state') or e['var'].endswith('_enabled') or
+                                                  e['var'] == 'gm2_t2_tick') and e['var'] != 'shot_sh3_enabled'
+            and e['q'] <= len(e['pl'])),
+        'first loads after such a read': sum(
+            1 for t in traces for q in (1, 2, 3) if (lambda ev: any(
+                e['op'] == 'read' and e.get('q') == q and not e.get('has', True) and e['var'] in ('shot_sh1_enabled', 'shot_sh2_enabled', 'c1_state')
+                and q <= len(e.get('pl', [])) and any(x['op'] in ('turnstart', 'ballend', 'release') and x.get('cur') == q
+                                                      and x.get('live', {}).get('g1') for x in ev[k + 1:])
+                for k, e in enumerate(ev)))(t['ev']))}
     ctx.coverage['games_with_players'] = {str(n): sum(1 for t in traces if max([len(e.get('pl', [])) for e in t['ev']] or [0]) == n)
                                           for n in (1, 2, 3)}
     ctx.sample({'kind': 'player-trace', 'cfg': traces[0]['cfg'],
@@ -690,6 +815,9 @@ def run(ctx):
             ln = info.get('line')
             sig = 'C11:unexplained:%s' % fe.get('op', 'end')
             what = 'step not explained by the Players spec at line %s' % ln
+        if fe.get('op') == 'read':
+            what = ('a mere READ of player variable %r of player %s (path %s; afterwards is_player_var=%s, value read %s) is not the '
+                    'no-op the statement demands - %s' % (fe.get('var'), fe.get('q'), fe.get('path'), fe.get('has'), fe.get('rv'), what))
         ctx.violation(sig, '%s: op=%s args=%s players=%s live=%s evs=%s (previous line: op=%s players=%s) cfg=%s %s' % (
             what, fe.get('op'), {k: fe[k] for k in fe if k not in ('pl', 'live', 'evs', 'op')}, fe.get('pl'), fe.get('live'),
             fe.get('evs'), pe.get('op'), pe.get('pl'), traces[i]['cfg'], traces[i].get('_tb', '')),
@@ -707,6 +835,10 @@ def run(ctx):
         'variable_player entries with an explicit target (player: 1 / player: 2; add to score, set bonus) live in game mode gm1; '
         'what such an entry does when the named player has not joined is taken from the observation (dropped, or applied to '
         'the player who is up); show "variables" steps are not exercised',
+        'reads: Player attribute / item access (on game.player and game.player_list[n]), raw templates players[n].x, players[n][\'x\'], '
+        'current_player.x (evaluate and evaluate_and_subscribe), conditions of conditional events of a machine-wide event_player; '
+        'reading a player who has not joined through a template/condition yields nothing (None / false) and creates nothing; '
+        'the values of variables holding objects (logic block states, achievements, restart list) are not compared',
         'the stop of gm2 is held by a test handler of the mode_gm2_stopping queue event (stands for a show / slide / queue_relay '
         'played out before the mode is torn down) and let go by the release step',
         'whether a start request for a game mode is granted while the ended ball waits for the held stop is taken from the '
